@@ -73,6 +73,19 @@ def replay_chain(item, reverse=False):
             obs.append({"v": vid, "valid": bool(r.valid), "codes": [str(e.code) for e in r.errors]})
         except Exception as e:
             obs.append({"v": vid, "valid": False, "codes": ["RAISED:" + type(e).__name__]})
+    # the same chain object after the other things a chain is used for (its grammar pattern, its text): evaluation is a pure
+    # function of chain and value, so the same verdicts are owed again
+    try:
+        chain.compile()
+        chain.to_string()
+    except Exception:
+        pass
+    for vid in (value_ids() if reverse else list(reversed(value_ids()))):
+        try:
+            r = chain.evaluate(pyvalue(vid), "F")
+            obs.append({"v": vid, "valid": bool(r.valid), "codes": [str(e.code) for e in r.errors]})
+        except Exception as e:
+            obs.append({"v": vid, "valid": False, "codes": ["RAISED:" + type(e).__name__]})
     return {"i": i, "case": {"chain": case["chain"]}, "parse_ok": True, "obs": obs, "text": text}
 
 
@@ -161,7 +174,8 @@ def replay_doc(item):
         obs.append({"route": "validator_api", "status": "RAISED:" + type(e).__name__, "error_fields": [], "warning_fields": []})
     # octave_validate
     try:
-        r = run_async(_common.tool("validate").execute(content=text, schema=name))
+        # every other document is validated with the debugging outputs switched on: they describe the verdict, they are not part of it
+        r = run_async(_common.tool("validate").execute(content=text, schema=name, **({"debug_grammar": True, "grammar_hint": True} if i % 2 else {})))
         ve = r.get("validation_errors", [])
         ws = [w for w in r.get("warnings", []) if w not in ve]
         obs.append({"route": "octave_validate", "status": str(r.get("validation_status")),
